@@ -541,6 +541,9 @@ func (a *Act) callByContract(st *State, callee *ssa.Function, fc *FuncContract, 
 	if len(callee.FreeVars) > 0 && len(env) < len(callee.FreeVars) {
 		fail("call of closure %s by contract without known bindings", callee)
 	}
+	for i := range args {
+		args[i] = a.firstClass(args[i], "argument of "+fnName(callee))
+	}
 	for _, v := range args {
 		if v.Loc != nil {
 			fail("address of %s passed to %s (needs a first-class pointer)", locDesc(v.Loc), callee)
@@ -579,7 +582,7 @@ func (a *Act) callByContract(st *State, callee *ssa.Function, fc *FuncContract, 
 	}
 	// havoc
 	if fc.NoFrame {
-		a.havocAll(st)
+		a.havocHeaps(st, false)
 	} else {
 		a.havocTargets(st, pre, penv, callee, fc)
 		na := u.D.Fresh("alloc", "Int")
@@ -587,7 +590,7 @@ func (a *Act) callByContract(st *State, callee *ssa.Function, fc *FuncContract, 
 		st.alloc = na
 	}
 	// ghost state: the output counter and the event trace are not covered by modifies clauses
-	if !fc.NoFrame {
+	{
 		if clauseMentions(fc, "outlen") || clauseMentions(fc, "outok") || u.E.mayOutput(callee, map[*ssa.Function]bool{}) {
 			st.setHeap(outHeap, "Int", u.D.Fresh("out", "Int"))
 			okOld := st.heap(outOKHeap, "Bool")
@@ -595,7 +598,11 @@ func (a *Act) callByContract(st *State, callee *ssa.Function, fc *FuncContract, 
 			u.Fact(implies(okNew, okOld)) // once a write has failed the flag stays false
 			st.setHeap(outOKHeap, "Bool", okNew)
 		}
-		if fc.CallbackRank != nil || clauseMentions(fc, "tlen") {
+		// The event trace records the callbacks / traced static calls issued by the body of the function
+		// under verification itself (with its inlined helpers). A callee called by contract can add events
+		// of the caller only when it can reach one of the caller's callbacks: it shares a callback name
+		// with the caller, or it is handed a function value.
+		if a.top.fc != nil && a.top.fc.CallbackRank != nil && a.top.hasDynamicCallbacks() && calleeMayTrace(a.top.fc, fc, callee) {
 			l0 := st.heap(traceLen, "Int")
 			for h, srt := range u.heapSort {
 				if _, isTrace := traceSorts[h]; !(isTrace || (strings.HasPrefix(h, "T_arg_") || strings.HasPrefix(h, "T_res") || strings.HasPrefix(h, "T_recv_"))) {
@@ -632,8 +639,8 @@ func (a *Act) callByContract(st *State, callee *ssa.Function, fc *FuncContract, 
 		if len(ghostNames) > 0 && mentions(cl.Expr, ghostNames) {
 			continue // postconditions over the callee's ghost variables are not visible to callers
 		}
-		if exprMentions(cl.Expr, "targ") || exprMentions(cl.Expr, "tres") || exprMentions(cl.Expr, "tres1") || exprMentions(cl.Expr, "trecv") {
-			continue // so are postconditions over the callee's own traced calls
+		if mentionsTrace(cl.Expr) {
+			continue // so are postconditions over the callee's own event trace
 		}
 		st.assume(a.evalClause(qenv, cl))
 	}
@@ -752,6 +759,7 @@ func (e *Engine) VerifyFunc(fn *ssa.Function, fc *FuncContract, smoke bool) (res
 	a := &Act{u: u, fn: fn, fc: fc, vals: map[ssa.Value]Val{}, pureFns: map[ssa.Value]bool{}, stack: []*ssa.Function{fn}}
 	a.top = a
 	a.qn = new(int)
+	a.preRegisterTraced()
 	st := &State{u: u, guard: "true", heaps: map[string]Term{}, locals: map[*ssa.Alloc]Term{}, alloc: u.alloc0, seen: map[ssa.Value]Term{}}
 	for _, p := range fn.Params {
 		c := u.D.Const("p_"+p.Name(), u.D.SortOf(p.Type()))
@@ -1045,4 +1053,105 @@ func typeHasPointerStep(a *Act, callee *ssa.Function, e Expr) bool {
 		// the field selected here: if it is a pointer and we continue selecting through it ...
 		e = se.X
 	}
+}
+
+// preRegisterTraced: the ghost arrays of traced static calls (arguments, receiver, results) get their
+// element types before execution starts, so that invariants evaluated at a loop head may mention events
+// that only the loop body produces.
+func (a *Act) preRegisterTraced() {
+	fc := a.fc
+	if fc == nil || fc.CallbackRank == nil {
+		return
+	}
+	if a.u.traceArgType == nil {
+		a.u.traceArgType = map[string]types.Type{}
+	}
+	reg := func(key string, t types.Type) {
+		if _, ok := a.u.traceArgType[key]; ok || t == nil {
+			return
+		}
+		switch a.u.D.SortOf(t) {
+		case "":
+			return
+		}
+		if _, isTuple := t.(*types.Tuple); isTuple {
+			return
+		}
+		a.u.traceArgType[key] = t
+	}
+	for _, b := range a.fn.Blocks {
+		for _, ins := range b.Instrs {
+			c, ok := ins.(ssa.CallInstruction)
+			if !ok {
+				continue
+			}
+			callee := c.Common().StaticCallee()
+			if callee == nil {
+				continue
+			}
+			name := callee.Name()
+			if o := callee.Origin(); o != nil {
+				name = o.Name()
+			}
+			if _, traced := fc.CallbackRank[name]; !traced {
+				continue
+			}
+			if a.staticTraced == nil {
+				a.staticTraced = map[string]bool{}
+			}
+			a.staticTraced[name] = true
+			sig := callee.Signature
+			for i := 0; i < sig.Params().Len(); i++ {
+				reg(fmt.Sprintf("%s_%d", name, i), sig.Params().At(i).Type())
+			}
+			if sig.Recv() != nil {
+				reg(name+"_recv", sig.Recv().Type())
+			}
+			if sig.Results().Len() > 0 {
+				reg(name+"_res", sig.Results().At(0).Type())
+			}
+			if sig.Results().Len() > 1 {
+				reg(name+"_res1", sig.Results().At(1).Type())
+			}
+		}
+	}
+}
+
+func mentionsTrace(e Expr) bool {
+	for _, f := range []string{"tlen", "tkind", "terr", "targ", "targ0", "targ1", "tres", "tres1", "trecv"} {
+		if exprMentions(e, f) {
+			return true
+		}
+	}
+	return false
+}
+
+func calleeMayTrace(caller, calleeFC *FuncContract, callee *ssa.Function) bool {
+	for _, c := range calleeFC.Callbacks {
+		if _, ok := caller.CallbackRank[c]; ok {
+			return true
+		}
+	}
+	ps := callee.Signature.Params()
+	for i := 0; i < ps.Len(); i++ {
+		if _, ok := types.Unalias(ps.At(i).Type()).Underlying().(*types.Signature); ok {
+			return true
+		}
+	}
+	return false
+}
+
+// hasDynamicCallbacks: some declared callback of the function under verification is not a statically
+// called function (it is a function parameter, a func-typed field or an interface method), so code
+// outside the body can invoke it when it gets hold of the value.
+func (a *Act) hasDynamicCallbacks() bool {
+	if a.fc == nil {
+		return false
+	}
+	for _, c := range a.fc.Callbacks {
+		if !a.staticTraced[c] {
+			return true
+		}
+	}
+	return false
 }
